@@ -161,7 +161,7 @@ static long count_tagged(const struct std_vector_TbfXtoXInteraction *v, long gpo
   return cnt;
 }
 
-/*@ harness bounded_il_block plain=1 unwind=UNW unwindset=USET bounded=DIM,level<=LMAX,groups<=2cells,all-offsets props=C11,C10,C02,C15 timeout=2400 */
+/*@ harness bounded_il_block when=DIM==1 plain=1 unwind=UNW unwindset=USET bounded=DIM,level<=LMAX,groups<=2cells,all-offsets props=C11,C10,C02,C15 timeout=2400 */
 void bounded_il_block(void)
 {
   Morton m; CellGroup g; long lv, n, i0, i1; _Bool self = nondet_bool();
@@ -191,7 +191,7 @@ void bounded_il_block(void)
   CANARY();
 }
 
-/*@ harness bounded_nl_block plain=1 unwind=UNW unwindset=USET bounded=DIM,level<=LMAX,groups<=2leaves,all-offsets props=C11,C10,C02,C15 timeout=2400 */
+/*@ harness bounded_nl_block when=DIM==1 plain=1 unwind=UNW unwindset=USET bounded=DIM,level<=LMAX,groups<=2leaves,all-offsets props=C11,C10,C02,C15 timeout=2400 */
 void bounded_nl_block(void)
 {
   Morton m; PartGroup g; long lv, n, i0, i1; _Bool self = nondet_bool(), upper = nondet_bool();
